@@ -62,11 +62,10 @@ type caseIn struct {
 	Steps    []stepIn `json:"steps"`
 	Siblings []string `json:"siblings,omitempty"` // other upstreams on the same connection ("unreliable", "partial"): environment, not under test;
 	// after a redial the broker answers THEIR resume requests first (their new run clears their stored chunks)
-	// the run that was started on the dead connection inside the resume window ends at once; its result loop
-	// cleans up asynchronously (it is not awaited by run) and, if that happens after the next run registered
-	// its ack waiters, closes THEIR channels (a defect of the unchanged code, see Sig F43 below).  Regular
-	// window cases answer the following resume request 30 ms late so that the cleanup is over; a probe case
-	// answers at once.
+	// regression label only: the run started on the dead connection inside the resume window ends at once; its
+	// result loop used to clean up asynchronously and could close the ack waiters of the NEXT run (finding F44,
+	// fixed in /repo e9acd3a: a run now waits for its result and alias loops).  Every window case answers the
+	// following resume request at once; these cases repeat the script that used to hit the race.
 	LateCleanupProbe bool `json:"latecleanupprobe,omitempty"`
 	ExpiryMs     int  `json:"expiryms,omitempty"`     // WithUpstreamExpiryInterval (0 = the default, 10 s)
 	AckTimeoutMs int  `json:"acktimeoutms,omitempty"` // WithUpstreamAckTimeout (0 = the default: none)
@@ -594,8 +593,8 @@ func runCase(c *caseIn, r *rng.R) (res result) {
 	sawWindow := false
 	bad := func(msg string) result {
 		res.direct = msg
-		if sawWindow && c.LateCleanupProbe && res.sig == "" && (strings.Contains(msg, "stayed in the sent storage") || strings.Contains(msg, "not processed within the watchdog")) {
-			res.sig = "F43:late-cleanup-of-the-previous-run-closes-the-new-run's-ack-waiters"
+		if sawWindow && res.sig == "" && (strings.Contains(msg, "stayed in the sent storage") || strings.Contains(msg, "not processed within the watchdog")) {
+			res.sig = "F44:late-cleanup-of-the-previous-run" // regression label (fixed in /repo e9acd3a)
 		}
 		return res
 	}
@@ -617,7 +616,6 @@ func runCase(c *caseIn, r *rng.R) (res result) {
 	expectHits := int32(0)
 	earlyOps := 0 // API calls made between the last cut and its detection
 	needResume := false
-	afterWindow := false
 	var cutStored []int
 	timedOut := map[uint32]bool{} // chunks removed by the CONFIGURED ack timeout on a live connection (by design)
 	// a chunk may leave the sent storage only through an acknowledgement or a configured ack timeout
@@ -1088,10 +1086,6 @@ func runCase(c *caseIn, r *rng.R) (res result) {
 				res.sig = "F9:stream-missed-the-outage"
 				return bad("no UpstreamResumeRequest within the watchdog after the redial: the stream did not notice the outage or was not allowed to resume (e.g. while a Close is draining), or is stuck")
 			}
-			if afterWindow && !c.LateCleanupProbe {
-				time.Sleep(30 * time.Millisecond)
-			}
-			afterWindow = false
 			storedAtResume := listStored()
 			if len(c.Siblings) > 0 && sibAnswered != inc {
 				// the broker answers the siblings first: a non-reliable stream's new run clears ITS stored chunks
@@ -1215,7 +1209,7 @@ func runCase(c *caseIn, r *rng.R) (res result) {
 					needResume = true
 					emit("ERedial", 0)
 					time.Sleep(2 * time.Millisecond)
-					afterWindow, sawWindow = true, true
+					sawWindow = true
 					close(plog.infoRelease)
 					// the resumed run starts on the dead second connection and must notice at once
 					emit("EDetect", 0)
@@ -1852,9 +1846,13 @@ func main() {
 			c.Steps = append(c.Steps, stepIn{Op: "close"})
 			add(c, "second-failure-inside-resume-window")
 		}
-		if *tier == "thorough" {
-			// probe of the late-cleanup race (no 30 ms grace): flagged cases carry Sig F43
-			for i := 0; i < 20; i++ {
+		{
+			// the script that used to hit the late-cleanup race (F44, fixed): regular cases that must pass
+			nprobe := 6
+			if *tier == "thorough" {
+				nprobe = 40
+			}
+			for i := 0; i < nprobe; i++ {
 				c := &caseIn{Keep: true, Reliable: true, Policy: "none", SliceMode: 1 + i%3, LateCleanupProbe: true}
 				c.Steps = append(pairs(1+i%2), outageOK(stepIn{Op: "resume", Outcome: "ok", Window: true})...)
 				c.Steps = append(c.Steps, stepIn{Op: "resume", Outcome: "ok"})
